@@ -138,9 +138,11 @@ class Driver(object):
         self.max_decisions = max_decisions
         self.expo_value = expo_value
 
+    stop_after = None      # abort the run this many decisions after the script is exhausted (partial runs for state steering)
+
     def decide(self, kind, probs, info=None):
         i = len(self.decisions)
-        if i >= self.max_decisions:
+        if i >= self.max_decisions or (self.stop_after is not None and i >= len(self.script) + self.stop_after):
             raise DepthExceeded()
         if i < len(self.script):
             c = self.script[i]
@@ -168,12 +170,22 @@ class RngProxy(object):
         self.n_opaque = 0
         self.n_other = 0
         self.n_dust = 0
+        self._ticks = 0
         self.min_prob = 1e-12
         self._cells = 0
         self.copy_pop = copy_pop
 
+    def _tick(self):
+        # partial runs for state steering: abort once the script is used up and `stop_after` further draws of any kind were made
+        d = self.driver
+        if d is not None and d.stop_after is not None and len(d.decisions) >= len(d.script):
+            self._ticks += 1
+            if self._ticks > 4 * d.stop_after:
+                raise DepthExceeded()
+
     # --- uniform
     def random(self):
+        self._tick()
         u = self._r.random() if self.driver is None else 0.5
         c = Cell(self._cells, u)
         self._cells += 1
@@ -207,6 +219,7 @@ class RngProxy(object):
 
     # --- exponential
     def expovariate(self, lambd):
+        self._tick()
         if self.driver is None:
             v = self._r.expovariate(lambd)
         else:
